@@ -1,5 +1,5 @@
 (** Extraction of the preprocessor model (engine "cpp"). *)
 From Coq Require Import ExtrOcamlBasic ExtrOcamlString.
-From CC Require Import Base.Str Model.Cpp Model.StrLit.
+From CC Require Import Base.Str Model.Cpp Model.StrLit Model.Calc.
 Extraction Language OCaml.
-Extraction "../build/ocaml/cpp_model.ml" run_cpp replace_all evaluate compile_quoted_string decode quoted_character.
+Extraction "../build/ocaml/cpp_model.ml" run_cpp replace_all evaluate compile_quoted_string decode quoted_character calc.
